@@ -97,4 +97,8 @@ def isSyntaxError {α} : Except Err α → Bool
   | .error (.other "SyntaxError") => true
   | _ => false
 
+def isValueError {α} : Except Err α → Bool
+  | .error (.valueError _) => true
+  | _ => false
+
 end Mxl.C11
